@@ -17,7 +17,8 @@ CONSTANTS L0, L1,     \* lengths of the input and of the decode target
           Ks,         \* depth limits explored
           Types, Kinds,   \* hit types ("" is the root's type) and value kinds on the input
           Types1, Kinds1, \* ... and on the decode target
-          Slack           \* 0 for in-bounds worlds
+          Slack,          \* 0 for in-bounds worlds
+          MinStart        \* smallest hit start (1: everything happens at non-zero offsets, where the frames differ)
 
 \* named depth-limit sets for configuration files (cfg syntax has no negative numbers)
 K_m1_2_4 == {-1, 2, 4}
@@ -37,7 +38,7 @@ TextSet == {Input, Target, Leaf, <<>>} \cup Slices(Input) \cup Slices(Target)
 TextTable == <<Input, Target, Leaf>> \o SetToSeq(TextSet \ {Input, Target, Leaf})
 Id(x) == CHOOSE i \in 1..Len(TextTable) : TextTable[i] = x
 
-Spans(len) == {sp \in (0..len) \X (0..(len + Slack)) : sp[1] < sp[2]}      \* Slack > 0: hits may end past the text (precondition broken on purpose)
+Spans(len) == {sp \in (MinStart..len) \X (0..(len + Slack)) : sp[1] < sp[2]}      \* Slack > 0: hits may end past the text (precondition broken on purpose)
 LeafKid == [s |-> 0, e |-> 1, ty |-> "k", obf |-> "", val |-> 3, kids |-> <<>>]
 ValOf(t, sp, kind) ==
   LET sl == PySlice(TextTable[t], sp[1], sp[2]) IN
